@@ -37,7 +37,10 @@ RULE = ('one PRNG; a case is a random mesh (ring / 2xk or 3xk grid / random conn
         '~12 % malformed (unknown names, transceivers inside the list, unknown source/destination) that must raise '
         'ServiceError or be dropped; ~8 % lists with 2-3 unknown LOOSE names at any position (first / between / last) '
         'mixed with valid STRICT/LOOSE hops, meetable or not; ~30 % of the batches hold TWINS (same source, destination '
-        'and include nodes, other hop types: all-LOOSE / all-STRICT / mixed) before or after their original.  Non-trivial = some request has a non-empty include list and at least two '
+        'and include nodes, other hop types: all-LOOSE / all-STRICT / mixed) before or after their original; ~8 % FULL '
+        'detours (every ROADM and line element of a long real route, 11-25 hops); the route objects of a quarter of the '
+        'requests are written in SHUFFLED order in the service document with indices >= 10 / strides (the loader must '
+        'order them numerically).  Non-trivial = some request has a non-empty include list and at least two '
         'simple paths between its end points, or is blocked; ispart cases are always non-trivial.  Include lists '
         'never repeat a node (the code accepts [X, X], a subsequence reading does not: the property is silent).')
 MODEL_SCOPE = ('modelled: correct_json_route_list, compute_constrained_path decision logic, explicit_path (repaired: '
@@ -105,11 +108,11 @@ def gen_request(rng, mesh, rid, allow_bidir=True, malformed_ok=True, widen=False
     n = mesh['n']
     s, t = rng.sample(range(n), 2) if n >= 2 else (0, 0)
     style = rng.choice(['none', 'none', 'roadms', 'lines', 'along', 'along', 'swapped', 'explicit', 'explicit',
-                        'revisit', 'malformed', 'unknowns'])
+                        'revisit', 'malformed', 'unknowns', 'detour'])
     if style == 'malformed' and not malformed_ok:
         style = 'along'
     if widen and rng.random() < 0.5:
-        style = 'unknowns'
+        style = rng.choice(['unknowns', 'detour'])
     inc = []
     src, dst = ['T', s], ['T', t]
     links = [lk for lk in mesh['links']]
@@ -158,6 +161,19 @@ def gen_request(rng, mesh, rid, allow_bidir=True, malformed_ok=True, widen=False
             t = c if rng.random() < 0.7 else rng.choice([x for x in range(n) if x != a])
             src, dst = ['T', s], ['T', t]
             inc = [['L', a, b, None], ['L', b, a, None], ['L', a, c, None]]
+    elif style == 'detour' and paths:
+        # a FULL detour: every ROADM and every line element of a real (long) route, 11-25 hops; the route objects are
+        # written in shuffled order with indices >= 10 in the service document (see `doc` below)
+        longest = sorted(paths, key=len)[-max(1, len(paths) // 3):]
+        p = rng.choice(longest)
+        hop = rng.choice([S, S, L, None])
+        for a, b in zip(p, p[1:]):
+            inc.append(['R', a])
+            inc.append(['LA', a, b])
+        inc.append(['R', p[-1]])
+        if rng.random() < 0.2 and len(inc) >= 4:          # two sites exchanged: cannot be met
+            i = rng.randrange(0, len(inc) - 2, 2)
+            inc[i], inc[i + 2] = inc[i + 2], inc[i]
     elif style == 'unknowns':
         # 2-3 names that are not in the topology, to be dropped as LOOSE hops, at any position (first, between, last)
         # of a list of valid hops whose hop types must stay attached to their nodes after the clean-up
@@ -204,6 +220,11 @@ def gen_request(rng, mesh, rid, allow_bidir=True, malformed_ok=True, widen=False
     if rng.random() < 0.08:
         inc = inc + [dst]
     hops = _hops(rng, len(inc))
+    doc = None
+    if style == 'detour':
+        doc = {'shuffle': rng.randrange(1 << 30), 'stride': rng.choice([1, 1, 2, 7]), 'offset': rng.choice([0, 1, 5, 95])}
+    elif inc and rng.random() < 0.25:
+        doc = {'shuffle': rng.randrange(1 << 30), 'stride': rng.choice([1, 3, 10]), 'offset': rng.choice([0, 8, 9, 99])}
     if style == 'unknowns':
         # valid hops: STRICT / LOOSE / mixed (STRICT-biased: an unmeetable STRICT hop must still block after the
         # unknown names are gone); unknown names LOOSE, now and then one of them STRICT (=> ServiceError)
@@ -213,7 +234,7 @@ def gen_request(rng, mesh, rid, allow_bidir=True, malformed_ok=True, widen=False
             us = [j for j, it in enumerate(inc) if it[0] == 'U']
             hops[rng.choice(us)] = S
     return {'id': rid, 'src': src, 'dst': dst, 'inc': [[it, h] for it, h in zip(inc, hops)],
-            'bidir': bool(allow_bidir and rng.random() < 0.3), 'style': style}
+            'bidir': bool(allow_bidir and rng.random() < 0.3), 'style': style, 'doc': doc}
 
 
 def gen_mesh(rng, tier, widen=False):
@@ -298,6 +319,8 @@ def add_twins(rng, mesh, reqs, oneway, via):
         variants.append([L if j % 2 == 0 else S for j in range(k)])
     variants = [v for v in variants if v != old]
     rng.shuffle(variants)
+    if rng.random() < 0.15:
+        variants.insert(0, old)            # an exact duplicate: legitimately aggregated, same decision for both
     for v in variants[:rng.choice([1, 1, 2, 3])]:
         t = copy.deepcopy(b)
         t['id'] = max(r['id'] for r in reqs) + 1
@@ -336,7 +359,9 @@ def run_ispart(case, drv):
 
 
 def resolve_request(net, r):
-    inc = [[routing.resolve(net, it), h] for it, h in r['inc']]
+    inc = [[u, h] for it, h in r['inc'] for u in routing.resolve_all(net, it)]
+    if r.get('style') == 'detour':
+        inc = inc[:25]
     # drop repeated uids (two L items of one line can hit the same element)
     seen, out = set(), []
     for u, h in inc:
@@ -344,7 +369,7 @@ def resolve_request(net, r):
             seen.add(u)
             out.append([u, h])
     return {'id': str(r['id']), 'src': routing.resolve(net, r['src']), 'dst': routing.resolve(net, r['dst']),
-            'inc': out, 'bidir': r.get('bidir', False)}
+            'inc': out, 'bidir': r.get('bidir', False), 'doc': r.get('doc')}
 
 
 def expected_clean(net, rr):
@@ -542,14 +567,20 @@ def run_route(case, drv):
                 results[rid] = ([e.uid for e in p], getattr(rq, 'blocking_reason', None), [e.uid for e in rp], rq)
         res.stats['via_planning'] += 1
     else:
+        from gnpy.topology.request import requests_aggregation
         rqs = [rq for _, _, _, rq in survivors]
         try:
+            # as planning() does: similar requests are aggregated first (requests that differ in their hop types are not
+            # similar: each keeps its own decision), then the routes are computed for the whole batch
+            rqs, _ = requests_aggregation(rqs, [])
             pths = compute_path_dsjctn(net.net, net.eq, rqs, [])
         except Exception as e:
             res.fail(f'compute_path_dsjctn raised {err_kind(e)}: {str(e)[:120]}')
             return res
         for rq, p in zip(rqs, pths):
-            results[rq.request_id] = (p, getattr(rq, 'blocking_reason', None), None, rq)
+            for rid in rq.request_id.split(' | '):
+                results[rid] = (p, getattr(rq, 'blocking_reason', None), None, rq)
+            res.stats['aggregated'] += int(' | ' in rq.request_id)
         res.stats['via_dsjctn'] += 1
     for r0, rr, inc_hops, _ in survivors:
         p, reason, rp, rq = results[rr['id']]
@@ -620,7 +651,8 @@ def run_route(case, drv):
                           'requests': 1,
                           'npaths_' + ('0' if info['npaths'] == 0 else '1' if info['npaths'] == 1 else '2-9' if
                                        info['npaths'] < 10 else '10-99' if info['npaths'] < 100 else '100+'): 1,
-                          'inc_len_' + str(min(len(inc), 5)): 1})
+                          'inc_len_' + ('11+' if len(inc) >= 11 else '6-10' if len(inc) >= 6 else str(len(inc))): 1,
+                          'doc_shuffled': int(bool(rr.get('doc')))})
     res.nontrivial = nontrivial
     res.stats.update({f'roadms_{case["mesh"]["n"]}': 1, 'meshes': 1})
     return res
